@@ -160,8 +160,27 @@ pub fn seq_short(rs: &RefSpec, seq: &Seq) -> String {
 /// Representative payload classes per type (class 0 is the default tiny payload).
 pub fn payload_classes(ty: Ty, big: bool) -> Vec<Val> {
     match ty {
-        Ty::U => vec![Val::U(1), Val::U(0), Val::U(0xff), Val::U(0x100), Val::U(1 << 32), Val::U(u64::MAX)],
-        Ty::I => vec![Val::I(-2), Val::I(0), Val::I(127), Val::I(-128), Val::I(128), Val::I(-129), Val::I(i64::MIN), Val::I(i64::MAX)],
+        // every width boundary of the writer's 1/2/4/8-byte integer encodings
+        Ty::U => vec![Val::U(1), Val::U(0), Val::U(0xff), Val::U(0x100), Val::U(0xffff), Val::U(0x10000), Val::U(0xffff_ffff), Val::U(1 << 32), Val::U(u64::MAX)],
+        Ty::I => vec![
+            Val::I(-2),
+            Val::I(0),
+            Val::I(127),
+            Val::I(-128),
+            Val::I(128),
+            Val::I(-129),
+            Val::I(32767),
+            Val::I(32768),
+            Val::I(-32768),
+            Val::I(-32769),
+            Val::I((1 << 31) - 1),
+            Val::I(1 << 31),
+            Val::I((1 << 32) - 1),
+            Val::I(-(1 << 31)),
+            Val::I(-(1 << 31) - 1),
+            Val::I(i64::MIN),
+            Val::I(i64::MAX),
+        ],
         Ty::F => vec![
             Val::F(1.5f64.to_bits()),
             Val::F(0f64.to_bits()),
